@@ -99,9 +99,27 @@ struct P {
         std::vector<uint32_t> seen(cells, 0);
         uint64_t calls = 0;
         std::optional<std::string> bad;
+        // the callback is a generic lambda that overwrites its argument after recording it: whatever it does to the
+        // tuple it was handed must not influence the iteration (callers may take the tuple by forwarding reference)
+        struct TooMany {};
+        try {
         covfie::utility::nd_map<tuple_t>(
-            [&](tuple_t t) {
+            [&](auto && t) {
+                struct Scribble {
+                    std::remove_reference_t<decltype(t)> & r;
+                    ~Scribble()
+                    {
+                        if constexpr (!std::is_const_v<std::remove_reference_t<decltype(t)>>) {
+                            for (size_t k = 0; k < N; ++k) {
+                                r[k] = static_cast<T>(~T(0));
+                            }
+                        }
+                    }
+                } scribble{t};
                 ++calls;
+                if (calls > cells + 8) {
+                    throw TooMany{};   // cut a runaway iteration short; reported below
+                }
                 uint64_t rank = 0;
                 for (size_t k = 0; k < N; ++k) {
                     if (t[k] < T(0) || uint64_t(t[k]) >= c.ext[k]) {
@@ -118,6 +136,9 @@ struct P {
             },
             s
         );
+        } catch (const TooMany &) {
+            return "callback invoked more than " + std::to_string(cells) + " times (the box has that many tuples)";
+        }
         bool nontriv = N >= 2 && !all_equal;
         Hasher h;
         h.vec(c.ext);
